@@ -231,7 +231,9 @@ func Execute(
 			multiplier *= config.BackoffFactor
 		}
 		backoff := time.Duration(float64(config.InitialBackoff) * multiplier)
-		if backoff > config.MaxBackoff {
+		// Compare before converting: a product beyond the int64 range (30s x 10^9) converts to a
+		// negative duration, which escaped the cap and made the wait zero.
+		if backoff > config.MaxBackoff || float64(config.InitialBackoff)*multiplier > float64(config.MaxBackoff) {
 			backoff = config.MaxBackoff
 		}
 
